@@ -378,6 +378,66 @@ def _dsd_check(c):
 
 dsd = O.make(_dsd_gen, _dsd_check, 'burn.dsd')
 
+# --------------------------------------------------------------------------
+# a re-used, re-parameterised instance (seeded C13-10): the burn-time solvers read their public
+# parameter attributes at call time, so an instance whose attributes were set to another admissible
+# parameter set must return the first-arrival field of THAT set (what a fresh instance returns) —
+# a value remembered from construction gives burn times earlier than t_d and jumps at the interface
+# --------------------------------------------------------------------------
+
+def _reparam_gen(rng):
+    kind = rng.choice(['dsd', 'dsd', 'k1', 'k3'])     # Kenamond 2 keeps a derived detonator array: not re-parameterisable
+    if kind == 'dsd':
+        a, b = dsd_params(rng), dsd_params(rng)
+        if rng.random() < 0.5:      # change one parameter only (a stale half of the formula shows best)
+            k = rng.choice(['t_d', 'D_CJ_1', 'D_CJ_2', 'alpha_1', 'alpha_2'])
+            b = dict(a, **{k: b[k] if k != 'alpha_1' and k != 'alpha_2' else min(b[k], 0.9 * a['r_1'] * a['D_CJ_1'],
+                                                                                 0.9 * a['r_2'] * a['D_CJ_2'])})
+        pts = [[r * u[0], r * u[1]] for r, u in ((rng.uniform(b['r_1'], 3 * b['r_2']), unit(rng, 2)) for _ in range(6))]
+        return dict(cls=DSD, a=a, b=b, pts=pts)
+    g = rng.choice([2, 3])
+    gen = dict(k1=k1_params, k2=k2_params, k3=k3_params)[kind]
+    a, b = gen(rng, g), gen(rng, g)
+    cls = dict(k1=K1, k2=K2, k3=K3)[kind]
+    if kind == 'k3':
+        pts = [k3_point(rng, b) for _ in range(6)]
+    else:
+        pts = [vec(rng, g, -4, 4) for _ in range(6)]
+    return dict(cls=cls, a=a, b=b, pts=pts)
+
+
+def _reparam_check(c):
+    try:
+        obj = O.construct(c['cls'], c['a'])
+        fresh = O.construct(c['cls'], c['b'])
+    except Exception:
+        return None
+    live = vars(obj)
+    for k, v in c['b'].items():
+        if k not in live:
+            return None             # not a public parameter attribute: nothing to set
+        setattr(obj, k, type(live[k])(v) if isinstance(live[k], np.ndarray) is False and not isinstance(v, list) else np.array(v, dtype=float))
+    pts = np.array(c['pts'], dtype=float)
+    try:
+        want = fresh(pts, 0.0)['burntime']
+    except Exception:
+        return None
+    if not np.all(np.isfinite(want)):
+        return None                 # inadmissible target set (r_i <= alpha_i/D_i is not checked by the constructor: known finding)
+    try:
+        got = obj(pts, 0.0)['burntime']
+    except Exception as ex:
+        return fail('%s:reparameterised-instance' % c['cls'].split(':')[-1], raised=type(ex).__name__)
+    bad = [i for i in range(len(pts)) if not (abs(got[i] - want[i]) <= ATOL * (1 + abs(want[i])))]
+    if bad:
+        i = bad[0]
+        return fail('%s:reparameterised-instance' % c['cls'].split(':')[-1], point=c['pts'][i], reused=float(got[i]),
+                    fresh=float(want[i]), t_d=c['b'].get('t_d'))
+    return None
+
+
+reparam = O.make(_reparam_gen, _reparam_check, 'burn.reparam')
+
 
 # --------------------------------------------------------------------------
 # C09: rotations, reflections, translations
